@@ -398,6 +398,9 @@ func (w *World) computeFlow(k flowKey) *FlowResult {
 				continue
 			}
 			o := newOuts[si]
+			// jump threading: a block that only merges booleans and branches on one of them is passed
+			// through along the edge its incoming value selects (`bad := t1; if !bad { …; bad = t2 }; if bad`)
+			s = threadTarget(b, s)
 			if in[s.Index] == nil {
 				in[s.Index] = o.clone()
 				if !inWork[s.Index] {
@@ -1331,4 +1334,85 @@ func (w *World) systemTestedValues(b *ssa.BasicBlock, depth int) []ssa.Value {
 		}
 	}
 	return out
+}
+
+// threadTarget: following the edge from -> to, the block that is really reached when `to` (and the blocks
+// after it) consist only of boolean φs, negations and a branch on a value that is known on this path: a
+// constant, a φ whose incoming value on this edge is known, or a value settled by a branch the path has
+// taken. Returns `to` itself when nothing is known.
+func threadTarget(from, to *ssa.BasicBlock) *ssa.BasicBlock {
+	env := map[ssa.Value]bool{}
+	for _, g := range rawEdgeConds(from, to) {
+		env[g.Cond] = g.Val
+	}
+	prev := from
+	for hop := 0; hop < 6; hop++ {
+		if len(to.Succs) != 2 || to.Succs[0] == to.Succs[1] {
+			return to
+		}
+		pi := -1
+		for i, p := range to.Preds {
+			if p == prev {
+				pi = i
+			}
+		}
+		if pi < 0 {
+			return to
+		}
+		var val func(v ssa.Value, d int) (bool, bool)
+		val = func(v ssa.Value, d int) (bool, bool) {
+			if d > 6 {
+				return false, false
+			}
+			if b, ok := env[v]; ok {
+				return b, true
+			}
+			switch x := v.(type) {
+			case *ssa.Const:
+				if x.Value != nil && (x.Value.String() == "true" || x.Value.String() == "false") {
+					return x.Value.String() == "true", true
+				}
+			case *ssa.UnOp:
+				if x.Op.String() == "!" {
+					if b, ok := val(x.X, d+1); ok {
+						return !b, true
+					}
+				}
+			}
+			return false, false
+		}
+		// the block may only hold φs, negations and the branch
+		var iff *ssa.If
+		for _, in := range to.Instrs {
+			switch x := in.(type) {
+			case *ssa.Phi:
+				if b, ok := val(x.Edges[pi], 0); ok {
+					env[x] = b
+				}
+			case *ssa.UnOp:
+				if x.Op.String() != "!" {
+					return to
+				}
+			case *ssa.DebugRef:
+			case *ssa.If:
+				iff = x
+			default:
+				return to
+			}
+		}
+		if iff == nil {
+			return to
+		}
+		b, ok := val(iff.Cond, 0)
+		if !ok {
+			return to
+		}
+		next := to.Succs[1]
+		if b {
+			next = to.Succs[0]
+		}
+		env[iff.Cond] = b
+		prev, to = to, next
+	}
+	return to
 }
